@@ -6,6 +6,21 @@ props = [json.loads(l)["id"] for l in open(os.path.join(ROOT, "properties.jsonl"
 
 # id -> (category, technique, level text, level note, design ref)
 CHECKS = {
+ "C03": ("exploration",
+         "runtime monitor: Akamai-string reference over the client's exact frame history (raw-frame peer on the independent x/net v0.19.0 framer over real TLS) judged at a recording backend, for every priority-frame limit incl. the flag wiring and the library default, race detector on",
+         "A scripted raw-frame client writes random legal histories (SETTINGS with known/unknown ids, SETTINGS ACK, WINDOW_UPDATEs, PRIORITY on idle/closed streams, HEADERS with/without priority, all 24 pseudo-header orders, CONTINUATION splits, 1-6 requests) and every request's X-HTTP2-Fingerprint at the backend must equal the reference string of an admissible history prefix; proxies are built through the real flag wiring with -max-h2-priority-frames 0,1,2,3,5,default and through library composition (unlimited). HTTP/1.1 connections must produce no HTTP/2 fingerprint. Held on the histories produced.",
+         "trusted: internal/ref/akamai.go (the statement's S|WU|P|PS rule), the independent framer/HPACK encoder on the client side, the recording backend; only frame sequences the server accepts are generated",
+         "DESIGN.md §4 C03"),
+ "C07": ("exploration",
+         "race detector + linearizability of fingerprint reads against the sequential client frame history (direct admissible-prefix check and porcupine v1.3.0, one history per connection)",
+         "Up to 100 streams are kept open per connection (gated backend) while the same client keeps writing SETTINGS with distinct values, WINDOW_UPDATE, PRIORITY and further HEADERS; every request carries 13 independent fingerprint reads (default injector + 12 extra HTTP2 injectors). Each value must be the reference string of ONE history prefix between the request's own HEADERS and the frames started before the backend received it (shared logical clock), the reads of a connection must be linearizable (porcupine), and the race detector must stay silent. Held on the interleavings produced; a clean race-detector run is not race freedom.",
+         "trusted: logical clock shared by client and backend, internal/ref/akamai.go, porcupine; a porcupine timeout is inconclusive, never a verdict",
+         "DESIGN.md §4 C07"),
+ "C19": ("exploration",
+         "runtime monitor: write/read round trip of every Framer.Write* method + RFC 7540 reference frame parser + byte-level differential against golang.org/x/net/http2 v0.19.0 Framer, on generated, mutated, exhaustive (type x flags; HEADERS/CONTINUATION/other sequences of length <= 4) and random inputs",
+         "Every Write* method is exercised with boundary and random parameters and read back by the fork and by the independent framer (and vice versa); reader inputs cover all 65536 (type, flags) headers, all frame-order sequences of length <= 4, lengths around every fixed-size rule, per-field mutations, random bytes and read limits at limit-1/limit/limit+1, with and without ReadMetaHeaders. Monitors: no panic, no frame above the read limit, error kind/code equal to the reference where RFC 7540 mandates one, agreement with x/net v0.19.0 except for input classes whitelisted after reading both sources. Held on the inputs produced.",
+         "trusted: internal/ref/frame.go, x/net v0.19.0 as second opinion; rules that upstream deliberately leaves to the caller (self-dependency, setting value ranges, promised id 0) are counted, not judged; five whitelisted differential classes incl. the two local fixes D18/D19",
+         "DESIGN.md §4 C19"),
  "C14": ("exploration",
          "runtime monitor: presented-leaf safety + bounded convergence over generated file-operation histories on the real filesystem with the real fsnotify watcher, concurrent handshakers stamped on one logical clock, race detector on",
          "Each history runs the real certwatcher (New + Start) behind the real defaultTLSConfig on a loopback TLS listener while four handshakers connect continuously; steps in the three supported styles (in-place truncate/partial/full write, rename-over, Kubernetes symlinked-directory swap) in either file order, with garbage / empty / mismatched intermediate states. Safety: every presented serial must belong to a pair whose exposing step began before the handshake ended; no handshake may fail. Convergence (bounded restatement of 'eventually'): after a valid final pair, new handshakes present it within 5 s (observed ~15 ms) and keep presenting it. Held on the histories produced.",
